@@ -387,6 +387,15 @@ func c04Scenario(c *Ctx, ps *c04PS, cfg c04KeyCfg, heavy bool) {
 					c04EmitKs(c, ps, cfg, "aut", ps.ksLine("aut", cfg, isNTT, g, 0, &gks[gi].EvaluationKey, c04Trunc(in, lo)), r)
 				}}, isNTT)
 
+			c04AutLazyNoP(c, ps, cfg, eval, ct, g, res, isNTT, pargs)
+			if res != "err" && res != "panic" {
+				c04AutMeta(c, ps, cfg, eval, ct, g, res, isNTT, pargs)
+				if gi == 0 {
+					// the identity element of the group: a plain copy, value AND metadata
+					c04AutMeta(c, ps, cfg, eval, ct, 1, c04Polys(ps.ctPolysAt(ct, 1, lvl)), isNTT, pargs)
+				}
+			}
+
 			// hoisted variants (the code supports them only for BaseTwoDecomposition == 0 and with a P)
 			if cfg.w == 0 && cfg.lp >= 0 {
 				nbPi := cfg.lp + 1
@@ -489,6 +498,7 @@ func c04GadgetProductTies(c *Ctx, ps *c04PS, eval *rlwe.Evaluator, cfg c04KeyCfg
 	c04EmitKs(c, ps, cfg, "gp", ps.ksLine("gp", cfg, isNTT, 0, 0, evk, in), res)
 	c.Count("ks:gp")
 	c04LazyWordTie(c, ps, cfg, evk, ct)
+	c04LazyModDown(c, ps, eval, cfg, isNTT, evk, ct, res)
 	gargs := fmt.Sprintf("%s %d %d %d lvl=%d ntt=%s", ps.hdr(), cfg.lq, cfg.lp, cfg.w, lvl, c04B2s(isNTT))
 	c04Recycled(c, ps, c04RecycleSpec{op: "gp", args: gargs, lvl: lvl, fresh: res, degs: []int{1}, noResize: true,
 		run: func(o *rlwe.Ciphertext) error { eval.GadgetProduct(lvl, ct.Value[1], &evk.GadgetCiphertext, o); return nil }}, isNTT)
